@@ -1,6 +1,20 @@
 # Per-property driver configuration. pkg = Go test package under harness/.
 # shards: number of parallel processes per tier; race: -run regex for the -race pass
-# (thorough); fuzz: [(target, seconds)] native campaigns (thorough).
-PROPS = {
-    "C20": {"pkg": "c20", "level": "exploration", "shards": {"quick": 4, "thorough": 16}},
-}
+# (thorough); fuzz: [(target, seconds)] native campaigns (thorough);
+# timeout: {"quick": s, "thorough": s} per shard process.
+def _p(n, **kw):
+    d = {"pkg": "c%02d" % n, "level": "exploration", "shards": {"quick": 4, "thorough": 16}}
+    d.update(kw)
+    return d
+
+PROPS = {"C%02d" % n: _p(n) for n in range(1, 21)}
+PROPS["C04"]["level"] = "fault_enumeration"
+
+# Optional per-package overrides live next to the check: harness/cXX/driver.json
+import json as _json, os as _os
+_H = _os.path.join(_os.path.dirname(_os.path.dirname(_os.path.abspath(__file__))), "harness")
+for _pid, _cfg in PROPS.items():
+    _f = _os.path.join(_H, _cfg["pkg"], "driver.json")
+    if _os.path.exists(_f):
+        _cfg.update(_json.load(open(_f)))
+BUILT = [p for p, c in PROPS.items() if _os.path.isdir(_os.path.join(_H, c["pkg"]))]
